@@ -105,7 +105,7 @@ void fsink(int ev, int n, const float *v) {
             // native evaluation of the resolved clause (tolerance 1.5 units), only for the strict reading of "within reach"
             if (called && stored && !col && wellformed) {
                 const BBox &nbb = R.gc->getBoundingBBox(q.gid);
-                const bool reach = nbb.xa + px >= lx0 - b[11] && nbb.xi + px <= lx1 - b[11] && nbb.ya + py >= ly0 - b[12] && nbb.yi + py <= ly1 - b[12];
+                const bool reach = (nbb.xa + px >= lx0 - b[11] && nbb.xi + px <= lx1 - b[11]) || (nbb.ya + py >= ly0 - b[12] && nbb.yi + py <= ly1 - b[12]);
                 bool hit = false;
                 if (ns == 0) hit = overlaps(tgt, at(nbb, R.gc->getBoundingSlantBox(q.gid), px, py), 1.5);
                 else for (int j = 0; j < ns; ++j) hit |= overlaps(tgt, meet(at(R.gc->getSubBoundingBBox(q.gid, j), R.gc->getSubBoundingSlantBox(q.gid, j), px, py), at(nbb, R.gc->getBoundingSlantBox(q.gid), px, py)), 1.5);
